@@ -89,12 +89,13 @@ func c04Judge(c *mon.Ctx, aText, bText string, o OptSet, class string) {
 	c.Input("options", o.Name)
 	c.Feature("class:" + class)
 	c.Feature("opt:" + o.Name)
-	A, B := ReadJ(aText), ReadJ(bText)
-	a, b := Plain(A), Plain(B)
+	mkA, mkB := operand(c, aText, "a", 0.12), operand(c, bText, "b", 0.12)
+	A, B := mkA(), mkB()
+	a, b := ref.MustJSON(aText), ref.MustJSON(bText)
 	want := oracleEq(a, b, o)
 	got := A.Equals(B, o.O()...)
-	rev := ReadJ(bText).Equals(ReadJ(aText), o.O()...)
-	refl := ReadJ(aText).Equals(ReadJ(aText), o.O()...)
+	rev := mkB().Equals(mkA(), o.O()...)
+	refl := mkA().Equals(ReadJ(aText), o.O()...) && ReadJ(aText).Equals(mkA(), o.O()...)
 	if aText != bText {
 		c.Nontrivial(joinKey(aText, bText, o.Name))
 	}
@@ -219,7 +220,7 @@ func init() {
 			"mutation, independent; plus all ordered pairs of a type-confusable atom list at 4 wrappings, number/8-byte-string alias pairs, and a hash-injectivity " +
 			"invariant over every sub-value (hook VerifHashCode); non-trivial = the two operands differ textually; distinct = distinct (a, b, options)",
 		Floors: map[string]int{"oracle_equal": 5000, "oracle_unequal": 5000, "equal_but_textually_different": 2000, "cross_type": 1000,
-			"class:near-miss": 3000, "hash_distinct_values": 1000},
+			"class:near-miss": 3000, "hash_distinct_values": 1000, "a_is_patch_result": 3000, "b_is_patch_result": 3000},
 		Assumptions: []string{
 			"the oracle is ref.Canon (type-tagged canonical forms; sets = sorted unique member canons, recursively; multisets = sorted member canons) and ref.EqPrec for Precision",
 			"SetKeys is read as the set reading (jd's Equals under SetKeys compares whole members)",
